@@ -50,8 +50,14 @@ def n_count_sweep():
     return (256 + 243) * len(COUNT_CFG)
 
 
+# a TCP peer that refuses / cannot be reached for > 1000 connection attempts of ONE call (a legal retry budget),
+# then accepts; or never accepts
+BIG_CONNECT = [(fam, ka, r, n, k) for fam in ("ET", "DT") for ka in (False, True)
+               for (r, n) in ((1500, 1099), (1200, 1300)) for k in ("refused", "unreach")]
+
+
 def n_cases(tier):
-    return n_count_sweep() + N_COUNT_RANDOM[tier] + N_API[tier] + N_IDENT[tier]
+    return n_count_sweep() + N_COUNT_RANDOM[tier] + N_API[tier] + N_IDENT[tier] + len(BIG_CONNECT)
 
 
 API = {
@@ -70,6 +76,15 @@ VALUE_ERROR_OK = ("read_sensor", "read_setting", "get_grid_export_limit", "get_o
 def make_case(tier, seed, index):
     rnd = C.rng_for(seed, ID, index)
     i = index
+    nb = n_count_sweep() + N_COUNT_RANDOM[tier] + N_API[tier] + N_IDENT[tier]
+    if i >= nb:
+        fam, ka, r, n, k = BIG_CONNECT[i - nb]
+        cf = {"k": k, "d": 0.0}
+        if k == "unreach":
+            cf["errno"] = 113
+        return {"kind": "api", "entry": None, "family": fam, "transport": "tcp", "timeout": 0.25, "retries": r,
+                "keep_alive": ka, "calls": ["read_sensor:vpv1", "read_runtime_data"], "idle": [0.0, 0.0],
+                "faults": [], "connects": [cf] * n}
     if i < n_count_sweep():
         fam, tr = COUNT_CFG[i // (256 + 243)]
         bits = i % (256 + 243)
